@@ -18,7 +18,7 @@ import rpc_util
 import vkit
 
 LEVEL = "exploration"
-CLS_FIELDS = ["sig", "maint", "body", "tok", "basic", "ereq", "ehdr", "cnr", "obj", "ttl", "as"]
+CLS_FIELDS = ["sig", "maint", "body", "tok", "basic", "ereq", "ehdr", "cnr", "obj", "ttl", "as", "flags", "peer"]
 
 
 def run(ck):
